@@ -15,8 +15,11 @@ Record circuit := Circ { c_nin : nat; c_nout : nat; c_ch : list (nat * nat) (* p
 Inductive skind := KInst | KIn | KOut | KInOut | KPass | KFbStart | KFbStop | KMissing | KOther.
 Record sym := Sym { s_id : nat; s_kind : skind; s_for : option elem; s_row : Z; s_col : Z; s_x : Z; s_y : Z; s_w : Z; s_h : Z }.
 Record nend := End { e_sym : nat; e_pin : option pin }.                    (* a net end: the symbol it is attached to, the pin it names *)
-Record net := Net { n_wire : nat; n_src : nend; n_snk : nend }.
-Record layout := Lay { l_syms : list sym; l_nets : list net }.
+(* n_from / n_to: first and last point of the polyline routed for the net (None = never routed, i.e. not drawn) *)
+Record net := Net { n_wire : nat; n_src : nend; n_snk : nend; n_from : option (Z * Z); n_to : option (Z * Z) }.
+(* where a symbol draws one of its pins: symbol id, pin, absolute x, y  (symbol.x + getPortSourcePos/getPortSinkPos) *)
+Record pinat := PinAt { a_sym : nat; a_pin : pin; a_x : Z; a_y : Z }.
+Record layout := Lay { l_syms : list sym; l_nets : list net; l_pins : list pinat }.
 
 Definition node := (nat * option pin)%type.                                (* an attachment point: symbol id, pin *)
 
@@ -154,9 +157,35 @@ Definition chk_wire (l : layout) (w : wconn) : bool :=
   end.
 Definition chk_wires (c : circuit) (l : layout) : bool := forallb (chk_wire l) (c_wires c).
 
+(* ------------------------------------------------------------------ clause 5: pin geometry *)
+(* two pins drawn at ONE point must be pins of one wire (else a net ending there touches a pin of another wire) *)
+Definition same_wire_pins (c : circuit) (p q : pin) : bool :=
+  forallb (fun w => forallb (fun w' => negb (pin_of_wire w p && pin_of_wire w' q) || Nat.eqb (w_id w) (w_id w')) (c_wires c)) (c_wires c).
+Definition same_pt (a b : pinat) : bool := Z.eqb (a_x a) (a_x b) && Z.eqb (a_y a) (a_y b).
+Definition pins_apartb (c : circuit) (a b : pinat) : bool := if same_pt a b then same_wire_pins c (a_pin a) (a_pin b) else true.
+Definition chk_pinpts (c : circuit) (l : layout) : bool := all_pairs (pins_apartb c) (l_pins l).
+
+(* every net is routed, and an end on an instance / port symbol is drawn exactly at the point where that symbol draws the named pin *)
+Definition at_pin_pt (i : nat) (p : pin) (xy : Z * Z) (a : pinat) : bool :=
+  Nat.eqb (a_sym a) i && pin_eqb (a_pin a) p && Z.eqb (a_x a) (fst xy) && Z.eqb (a_y a) (snd xy).
+Definition geo_end (l : layout) (e : nend) (pt : option (Z * Z)) : bool :=
+  match find_sym l (e_sym e) with
+  | None => false
+  | Some s =>
+      if virtual (s_kind s) then true
+      else match e_pin e, pt with
+           | Some p, Some xy => existsb (at_pin_pt (e_sym e) p xy) (l_pins l)
+           | _, _ => false
+           end
+  end.
+Definition is_some {A} (o : option A) : bool := match o with Some _ => true | None => false end.
+Definition net_geo (l : layout) (n : net) : bool :=
+  is_some (n_from n) && is_some (n_to n) && geo_end l (n_src n) (n_from n) && geo_end l (n_snk n) (n_to n).
+Definition chk_geo (l : layout) : bool := forallb (net_geo l) (l_nets l).
+
 (* ------------------------------------------------------------------ the validator *)
 Definition schem_ok (c : circuit) (l : layout) : bool :=
-  circ_ok c && chk_ids l && chk_only c l && chk_each c l && chk_geom l && chk_ends c l && chk_wires c l.
+  circ_ok c && chk_ids l && chk_only c l && chk_each c l && chk_geom l && chk_ends c l && chk_wires c l && chk_pinpts c l && chk_geo l.
 
 (* diagnosis printed by the harness when schem_ok = false: which clause, which symbols / nets / wires
    (only nat / bool / list / tuple values, so that the harness can parse the printed term) *)
@@ -175,10 +204,17 @@ Definition wire_diag (l : layout) (w : wconn) : nat * bool * list nat * nat :=
                        (combine (seq 0 (length (w_rd w))) (w_rd w))),
        length (filter (fun e => negb (mem (fst e) R && mem (snd e) R)) E))
   end.
+Definition coincident_pins (c : circuit) (l : layout) : list (nat * nat * Z * Z) :=      (* (symbol a, symbol b, x, y) of clashing pins *)
+  flat_map (fun ka => flat_map (fun kb => if Nat.ltb (fst ka) (fst kb) && negb (pins_apartb c (snd ka) (snd kb))
+                                          then [(a_sym (snd ka), a_sym (snd kb), a_x (snd ka), a_y (snd ka))] else [])
+                               (combine (seq 0 (length (l_pins l))) (l_pins l)))
+           (combine (seq 0 (length (l_pins l))) (l_pins l)).
 Definition schem_diag (c : circuit) (l : layout) :=
-  ( (circ_ok c, chk_ids l, chk_only c l, chk_each c l, chk_geom l, chk_ends c l, chk_wires c l),
+  ( (circ_ok c, chk_ids l, chk_only c l, chk_each c l, chk_geom l, chk_ends c l, chk_wires c l, chk_pinpts c l, chk_geo l),
     map elem_code (filter (fun e => negb (Nat.eqb (count (stands_for e) (real_syms l)) 1)) (elems c)),   (* elements without exactly one symbol *)
     map s_id (filter (fun s => match s_for s with Some e => negb (elem_ok c e && skind_eqb (s_kind s) (kind_of_elem e)) | None => true end) (real_syms l)),
     bad_pairs l,                                                                                   (* instance/port symbols in one cell or overlapping *)
     map fst (filter (fun kn => negb (net_ok c l (snd kn))) (combine (seq 0 (length (l_nets l))) (l_nets l))),    (* indices of bad nets *)
-    map (wire_diag l) (filter (fun w => negb (chk_wire l w)) (c_wires c)) ).                       (* wires whose figure is wrong *)
+    map (wire_diag l) (filter (fun w => negb (chk_wire l w)) (c_wires c)),                         (* wires whose figure is wrong *)
+    coincident_pins c l,                                                                           (* pins of different wires drawn at one point *)
+    map fst (filter (fun kn => negb (net_geo l (snd kn))) (combine (seq 0 (length (l_nets l))) (l_nets l))) ).   (* nets not routed / not ending on the pin *)
